@@ -92,20 +92,32 @@ let () =
         end
       | ["R"; id; mode; datahex; rops; obs] ->
         let data = bytes_of_hex datahex in
-        let rops = parse_list parse_rop rops in
+        let rops = if rops = "-" then [] else split_on ';' rops in
         let esc = (mode = "E") in
-        let step s o =
-          if esc then xrstep s o
-          else (match o with
-              | XBase (RBits w) -> let (v, s') = read_plain s w in (XV (VN v), s')
-              | XBase (RBytes k) -> (* used as ReadSigned(k) in plain mode *)
-                let (z, s') = read_signed_plain s (n_of_int (int_of_nat k)) in (XV (VZ z), s')
-              | XBase RFlag -> let (b, s') = read_flag_plain s in (XV (VB b), s')
-              | _ -> failwith "plain reader op") in
+        (* "S" = ReadSignedGolomb with Go's uint wrap (read_se64), "g:k" = Reader.ReadSigned(k) with the
+           64-bit arithmetic (read_signed64; "P" = run-time panic); everything else as before *)
+        let step s (os : string) : string * rstate =
+          match split_on ':' os with
+          | ["S"] -> let (z, s') = read_se64 s in (hex_of_z z, s')
+          | ["g"; k] ->
+            (match read_signed64 s (n_of_int (int_of_string k)) with
+             | None -> ("P", s)
+             | Some (z, s') -> (hex_of_z z, s'))
+          | _ ->
+            let o = parse_rop os in
+            let (v, s') =
+              if esc then xrstep s o
+              else (match o with
+                  | XBase (RBits w) -> let (v, s') = read_plain s w in (XV (VN v), s')
+                  | XBase (RBytes k) -> (* used as ReadSigned(k) in plain mode *)
+                    let (z, s') = read_signed_plain s (n_of_int (int_of_nat k)) in (XV (VZ z), s')
+                  | XBase RFlag -> let (b, s') = read_flag_plain s in (XV (VB b), s')
+                  | _ -> failwith "plain reader op") in
+            (xrval_string v, s') in
         let (_, tr) =
           L.fold_left (fun (s, tr) o ->
               let (v, s') = step s o in
-              let line = Printf.sprintf "%s/%d/%d/%d/%d" (xrval_string v)
+              let line = Printf.sprintf "%s/%d/%d/%d/%d" v
                   (if rerr s' then 1 else 0)
                   (int_of_n (nr_bytes_read s')) (int_of_z (nr_bits_read s'))
                   (int_of_z (nr_bits_read_in_current_byte s')) in
@@ -114,6 +126,23 @@ let () =
         let mt = match tr with [] -> "-" | _ -> S.concat "," (L.rev tr) in
         if mt = obs then Printf.printf "OK %s\n" id
         else Printf.printf "MISMATCH %s reader(%s) model_obs=%s\n" id mode mt
+      | ["X"; id; mode; cap; ops; outhex; trace] ->
+        (* writers over an io.Writer that fails after cap one-byte writes ("-" = never);
+           per-op trace: EBSP "v/n/err" (BitsInBuffer, AccError), plain "err" *)
+        let cap = if cap = "-" then None else Some (n_of_int (int_of_string cap)) in
+        let ops = parse_list parse_wop ops in
+        let esc = (mode = "E") in
+        let (s, tr) =
+          L.fold_left (fun (s, tr) o ->
+              let s' = if esc then wxstep s o else wxstep_plain s o in
+              let e = if xerr s' then "1" else "0" in
+              let item = if esc then hex_of_n (wv (xs s')) ^ "/" ^ string_of_int (int_of_n (wn (xs s'))) ^ "/" ^ e else e in
+              (s', item :: tr))
+            (xinit cap, []) ops in
+        let mo = hex_of_bytes (xout s) in
+        let mt = match tr with [] -> "-" | _ -> S.concat "," (L.rev tr) in
+        if mo = outhex && mt = trace then Printf.printf "OK %s\n" id
+        else Printf.printf "MISMATCH %s failing-writer(%s) model_out=%s model_trace=%s\n" id mode mo mt
       | ["F"; id; cap; ops; outhex; trace] ->
         let ops = parse_list parse_fop ops in
         let (s, tr) =
